@@ -650,9 +650,21 @@ def run(ctx: Ctx):
         ans = [n for n in gr.nodes if n.kind == "stmt" and isinstance(n.ast, ast.Assign)
                and any(A.dotted(t).endswith(".answer") for t in n.ast.targets)]
         ha = [n for n in gr.nodes if n.kind == "stmt" and any(A.call_name(c) == "self.handle_answer" for c in n.calls())]
+        # the waiter is found by membership + index, or by one tolerant get() whose result is
+        # tested for None (the sender removes its entry from its own thread at any moment)
+        getters = {A.dotted(n.ast.targets[0]) for n in gr.nodes if n.kind == "stmt" and isinstance(n.ast, ast.Assign)
+                   and isinstance(n.ast.value, ast.Call) and isinstance(n.ast.value.func, ast.Attribute)
+                   and n.ast.value.func.attr == "get" and A.dotted(n.ast.value.func.value) == "self._answer_waiting"
+                   and len(n.ast.value.args) == 1 and ast.unparse(n.ast.value.args[0]) == key}
+
+        def _found(fs, truth):
+            if (key, "in-expr", "self._answer_waiting", truth) in fs:
+                return True
+            return any(x[0] in getters and ((x[1] == "is" and x[2] is None and x[3] is (not truth))
+                                            or (x[1] == "truthy" and x[3] is truth)) for x in fs)
         ok = (len(sets) == 1 and len(ans) == 1 and len(ha) == 1
-              and (key, "in-expr", "self._answer_waiting", True) in must_facts(gr, atr, sets[0])
-              and (key, "in-expr", "self._answer_waiting", False) in must_facts(gr, atr, ha[0])
+              and _found(must_facts(gr, atr, sets[0]), True)
+              and _found(must_facts(gr, atr, ha[0]), False)
               and A.dotted(ans[0].ast.value) == rmsg and gr.dominated(sets[0], ans))
         if not ok:
             ctx.fail(cons, ra.loc(), "receive_answer must store the answer and wake exactly the "
@@ -662,7 +674,8 @@ def run(ctx: Ctx):
             wv = A.dotted(ans[0].ast.targets[0]).rsplit(".", 1)[0]
             wd = [n for n in gr.nodes if n.kind == "stmt" and isinstance(n.ast, ast.Assign)
                   and any(A.dotted(t) == wv for t in n.ast.targets)]
-            if not wd or ast.unparse(wd[0].ast.value).replace(" ", "") != f"self._answer_waiting[{key}]":
+            if not wd or ast.unparse(wd[0].ast.value).replace(" ", "") not in (
+                    f"self._answer_waiting[{key}]", f"self._answer_waiting.get({key})"):
                 ctx.fail(cons + "#waiter", ra.loc(), "the waiter woken is not the one registered under the answer's id")
             # once the waiter has been found, nothing can fail before it is woken: an exception
             # there is swallowed by the node's receive handler, the sender times out although its
@@ -678,7 +691,8 @@ def run(ctx: Ctx):
             if sets_e and wd_e:
                 between = gre.reach([d for l, d in wd_e[0].succ if l != "exc"], blocked=sets_e,
                                     skip_labels=("exc",))
-                for n in sorted((x for x in between if x.raises), key=lambda x: x.line):
+                for n in sorted((x for x in between if x.raises and _found(must_facts(gre, atr, x), True)),
+                                key=lambda x: x.line):
                     rs = sorted(n.raises)
                     ctx.fail(cons + "#nothing-raises-before-wake", gre.loc(n),
                              f"`{n.text(60)}` can raise {rs} between finding the waiter and waking it: the "
